@@ -1073,3 +1073,44 @@ def r_wide_only_properties_reach_the_flags(ck, P, rid='C02-R24'):
             ck.ok(R, where, 'a FAST_PATH_STD_DEST_FLAGS bit is cleared when it is set')
         else:
             ck.violation(R, f.name, 'flags ignore %s' % fld, 'general_composite_rect leaves the narrow pipeline when %s is set, but %s clears no flag of FAST_PATH_STD_DEST_FLAGS on a path guarded by that field: the fast-path tables look at the flags only, so a whole-operation fast path is chosen for such a destination and the result differs from the general path (a dithered destination is drawn without dithering)' % (fld, f.name), '%s:%d' % (f.unit.name, f.line))
+
+
+def r19_14_direct_fill_passes_the_image_bounds(ck, P, rid='C19-R14'):
+    """T-ORD (must-pass-through): a function that hands an image's raw bits pointer to pixman_fill / pixman_blt fills rectangles taken from
+    a region; every path to that call goes through the intersection of the region with the image's own rectangle (0, 0, width, height) -
+    whether or not there is a clip: a clip need not lie inside the image."""
+    R = ck.rule(rid, 'in every exported function that hands D->bits.bits to pixman_fill / pixman_blt, each path from the entry to that call passes through a call that intersects the region being filled with the rectangle (0, 0, D->bits.width, D->bits.height): the image bounds hold on the clipped path as well as on the unclipped one, since a client clip may reach beyond the image', floor=1)
+    RAW = ('pixman_fill', 'pixman_blt', '_pixman_implementation_fill', '_pixman_implementation_blt')
+    n = 0
+    for f in P.functions():
+        if not f.exported:
+            continue
+        for c in f.calls():
+            if c.callee not in RAW:
+                continue
+            bits = None
+            for a in c.a:
+                y = f.v(a) if a and a[0] == 'v' else None
+                if y is not None and y.op == 'load' and f.last_field(f.path(y.a[0])) == 'bits_image.bits':
+                    bits = f.root(f.path(y.a[0]))
+            if bits is None or bits[0] != 'arg':
+                continue
+            n += 1; ck.saw(f)
+            def bounds_call(x):
+                if x.op != 'call' or not x.callee or not x.callee.endswith('intersect_rect'):
+                    return False
+                flds = set()
+                for a in x.a:
+                    y = f.v(f.strip_casts(a)) if a and a[0] == 'v' else None
+                    if y is not None and y.op == 'load' and f.root(f.path(y.a[0])) == bits:
+                        flds.add(f.last_field(f.path(y.a[0])))
+                return {'bits_image.width', 'bits_image.height'} <= flds
+            first = f.blocks[0].insts[0]
+            hit = f.reach_avoiding(first, bounds_call, lambda x: x is c)
+            where = '%s: %s at %s' % (f.name, c.callee, c.loc())
+            if hit is None:
+                ck.ok(R, where, 'the region is intersected with the image rectangle on every path')
+            else:
+                ck.violation(R, f.name, 'direct fill without the image bounds', '%s can reach %s (%s) along a path that does not intersect the fill region with the rectangle of the image (0, 0, width, height): with a clip that reaches beyond the image (pixman_image_set_clip_region does not trim it) and a box that does too, rows and columns outside the image are written' % (f.name, c.callee, c.loc()), c.loc())
+    if n == 0:
+        raise AnalysisBroken('%s: no exported function handing an image\'s bits to pixman_fill / pixman_blt found' % rid)
